@@ -72,7 +72,7 @@ def run(tier, seed):
         "remove calls; non-trivial = a distinct state, first reached by an accepted call, in which some instance "
         "carries at least one outer pin")
     found = {}
-    deadline = time.time() + (150 if tier == "quick" else 3000)
+    deadline = time.time() + (900 if tier == "quick" else 6000)
     scns = scenarios.INSTANCE_SCENARIOS
     k = seed % len(scns)
     for scn in scns[k:] + scns[:k]:
